@@ -239,18 +239,22 @@ def _classify(arg):
 
 
 def _ok_sig(s):
-    return 8 <= len(s) <= 73
+    return 1 <= len(s) <= 75      # the quantifier's 8..73 and everything else one direct push can carry
 
 
 def _ok_key(k):
-    return len(k) in (33, 65)
+    return 1 <= len(k) <= 75      # 33 / 65 in the quantifier
+
+
+def _ok_hash(h):
+    return 1 <= len(h) <= 75      # 20 / 32 in the quantifier
 
 
 def _intended(op, a):
     """intended item list of a template builder for arguments inside the property's quantifier, else None"""
     O, D = (lambda n: ("op", n)), (lambda d: ("data", d))
     if op == "p2pkh_script_pubkey":
-        return [O("OP_DUP"), O("OP_HASH160"), D(a[0]), O("OP_EQUALVERIFY"), O("OP_CHECKSIG")] if len(a[0]) == 20 else None
+        return [O("OP_DUP"), O("OP_HASH160"), D(a[0]), O("OP_EQUALVERIFY"), O("OP_CHECKSIG")] if _ok_hash(a[0]) else None
     if op == "p2pkh_script_sig":
         return [D(a[0]), D(a[1])] if _ok_sig(a[0]) and _ok_key(a[1]) else None
     if op == "p2pk_script_pubkey":
@@ -258,7 +262,7 @@ def _intended(op, a):
     if op == "p2pk_script_sig":
         return [D(a[0])] if _ok_sig(a[0]) else None
     if op == "p2sh_script_pubkey":
-        return [O("OP_HASH160"), D(a[0]), O("OP_EQUAL")] if len(a[0]) == 20 else None
+        return [O("OP_HASH160"), D(a[0]), O("OP_EQUAL")] if _ok_hash(a[0]) else None
     if op == "p2sh_script_sig":
         return [D(s) for s in a[0]] + [D(a[1])] if all(map(_ok_sig, a[0])) and 1 <= len(a[1]) <= 600 else None
     if op in ("multisig_script_pubkey", "p2sh_multisig_script_pubkey"):
@@ -276,12 +280,11 @@ def _intended(op, a):
     if op == "p2sh_multisig_script_sig":
         return [O("OP_0")] + [D(s) for s in a[0]] + [D(a[1])] if all(map(_ok_sig, a[0])) and 1 <= len(a[1]) <= 600 else None
     if op in ("p2wpkh_script_pubkey", "p2wsh_script_pubkey"):
-        want = 20 if op == "p2wpkh_script_pubkey" else 32
-        return [O("OP_%d" % a[1]), D(a[0])] if 0 <= a[1] <= 16 and len(a[0]) == want else None
+        return [O("OP_%d" % a[1]), D(a[0])] if 0 <= a[1] <= 16 and _ok_hash(a[0]) else None
     if op in ("p2wpkh_script_sig", "p2wsh_script_sig"):
         return []
     if op == "p2sh_p2wpkh_script_pubkey":
-        if not (0 <= a[1] <= 16 and len(a[0]) == 20):
+        if not (0 <= a[1] <= 16 and _ok_hash(a[0])):
             return None
         return [O("OP_HASH160"), D(h160(ref_asm([O("OP_%d" % a[1]), D(a[0])]))), O("OP_EQUAL")]
     if op == "p2sh_p2wpkh_script_sig":
@@ -299,6 +302,29 @@ def _intended(op, a):
 
 
 def prop_oracle(c):
+    try:
+        return _prop_oracle(c)
+    except Exception as e:     # the property promises a value here
+        return "the implementation raised %s: %s" % (type(e).__name__, str(e)[:200])
+
+
+def in_quantifier(c):
+    """is the case inside the set the property quantifies over (so that the oracle says something)?"""
+    op, a = c["op"], c["args"]
+    if op == "script":
+        return all(_classify(x) is not None for x in a[0])
+    if op == "decode_script":
+        return ref_disasm(a[0], need_minimal=True) is not None
+    if op == "witness_ser":
+        return True
+    if op == "witness_deser":
+        return ref_witness_parse(a[0]) is not None
+    if op == "canonical":
+        return False
+    return _intended(op, a) is not None
+
+
+def _prop_oracle(c):
     m = S()
     op, a = c["op"], c["args"]
     if op == "script":
@@ -448,6 +474,7 @@ def gen_cases(rng, tier):
     # strings that are neither (malformed stream / Python leniency)
     bad = [("asm-bad-name", ["OP_FOO"]), ("asm-bad-name", ["OP_"]), ("asm-bad-name", ["OP_dup"]), ("asm-bad-name", ["OP_17"]),
            ("asm-bad-name", ["aa", "OP_CHECKSIGG"]), ("asm-bad-name", ["OP_DUP "]), ("asm-bad-name", ["OP_é"]),
+           ("asm-bad-name", ["OP_0\x00"]), ("asm-bad-name", ["OP_DUP\n"]), ("asm-bad-hex", ["a\x00"]),
            ("asm-bad-hex", ["zz"]), ("asm-bad-hex", ["op_dup"]), ("asm-bad-hex", ["0x00"]), ("asm-bad-hex", [" OP_DUP"]),
            ("asm-bad-hex", ["aa", "g0"]), ("asm-bad-hex", ["éé"]), ("asm-bad-hex", ["a٠"]), ("asm-bad-hex", ["OP"]),
            ("asm-odd-hex", ["a"]), ("asm-odd-hex", ["abc"]), ("asm-odd-hex", ["aa b"]), ("asm-odd-hex", ["a a"]),
@@ -602,6 +629,13 @@ def gen_cases(rng, tier):
 
 # ------------------------------------------------------------------------------------------------
 def shrink(c):
+    inside = in_quantifier(c)
+    for c2 in _shrink(c):
+        if not inside or in_quantifier(c2):
+            yield c2
+
+
+def _shrink(c):
     a = c["args"]
 
     def with_args(*args):
